@@ -30,6 +30,8 @@ HOSTILE = [
 HOSTILE += ["2", "3", "4", "\xb2", "\u2460", "\xb2\xb3", "\u0663", "1\xb2"]
 # regular expressions the compiler gives up on with something other than re.error
 HOSTILE += ["a{99999999999}", "a{1,4294967296}", "(" * 2000 + "a" + ")" * 2000]
+# names of attributes and methods of the objects a CID is loaded into
+HOSTILE += ["location", "_location", "Location", "set_property", "validate", "is valid", "allowed_characters", "__dict__", "_format", "encoding_", "sheet_", "cid", "data_format", "name", "rule", "field_name"]
 # an integer limit of more digits than Python converts to decimal text (4300 by default)
 HOSTILE += ["0...0x" + "f" * 4000, "-0x" + "f" * 4000 + "...0"]
 # a sound first token followed by something the tokenizer or the parser rejects right there
